@@ -867,8 +867,14 @@ class Model:
             b = g.fields['binding']
             if b is not None:
                 rb = b[1]
-                groups.setdefault(rb.fields['group'], []).append(V(rec, **{roles['name']: g.fields['name'], roles['index']: rb.fields['binding'],
-                                                                          roles['type']: self.types[g.fields['ty'][2]][1], roles['space']: g.fields['space']}))
+                fields = {}
+                for role_, val_ in (('name', g.fields['name']), ('index', rb.fields['binding']), ('type', self.types[g.fields['ty'][2]][1]), ('space', g.fields['space'])):
+                    spec_ = roles[role_]
+                    if isinstance(spec_, str):
+                        fields[spec_] = val_
+                    else:
+                        fields[spec_[0]] = g        # the record keeps the variable itself: the role is read through it
+                groups.setdefault(rb.fields['group'], []).append(V(rec, **fields))
         self.group_map = collections.OrderedDict((k, V('crate::bindgroup::GroupData', bindings=v)) for k, v in sorted(groups.items()))
         closure = set()
 
